@@ -34,7 +34,8 @@ Definition arm_ok (k : qkind) : bool :=
 Lemma all_kinds_complete : forall k, In k all_kinds.
 Proof. intros k. destruct k; vm_compute; tauto. Qed.
 Lemma all_arms_guarded :
-  forallb arm_ok all_kinds = true /  allowed_write_sites_as_expected = true /\ event_insert_guarded_by_has_user = true.
+  forallb arm_ok all_kinds = true /\
+  allowed_write_sites_as_expected = true /\ event_insert_guarded_by_has_user = true.
 Proof. vm_compute. repeat split. Qed.
 Lemma arm_ok_all : forall k, arm_ok k = true.
 Proof.
@@ -45,27 +46,30 @@ Qed.
 Lemma is_guard_eq : forall g1 g2, is_guard g1 g2 = true -> g1 = g2.
 Proof. intros [] []; cbn; congruence. Qed.
 Lemma room_arm_facts : forall k, a_first_arg_is_room (arm_of k) = true ->
-  a_guard (arm_of k) = GAllowedRoom /\ a_unguarded_success (arm_of k) = false /  source_room_filtered (a_source (arm_of k)) = true.
+  a_guard (arm_of k) = GAllowedRoom /\ a_unguarded_success (arm_of k) = false /\ source_room_filtered (a_source (arm_of k)) = true.
 Proof.
   intros k Hr. pose proof (arm_ok_all k) as H. unfold arm_ok in H. rewrite Hr in H.
-  repeat (apply andb_true_iff in H; destruct H as [H ?]).
-  apply is_guard_eq in H. apply negb_true_iff in H4. auto.
+  apply andb_true_iff in H. destruct H as [H Hins]. apply andb_true_iff in H. destruct H as [H Hfilt].
+  apply andb_true_iff in H. destruct H as [H Hrs]. apply andb_true_iff in H. destruct H as [H Href].
+  apply andb_true_iff in H. destruct H as [H Harg]. apply andb_true_iff in H. destruct H as [Hg Hnu].
+  apply is_guard_eq in Hg. apply negb_true_iff in Hnu. auto.
 Qed.
 Lemma rk_first_arg : forall k, a_first_arg_is_room (arm_of (rk_kind k)) = true.
 Proof. intros k. destruct k; reflexivity. Qed.
 Lemma room_kind_arm : forall k, let a := arm_of (rk_kind k) in
   a_guard a = GAllowedRoom /\ a_unguarded_success a = false.
 Proof. intros k. destruct (room_arm_facts (rk_kind k) (rk_first_arg k)) as (A & B & _). split; assumption. Qed.
-Lemma nodes_arm : a_guard (arm_of QNodes) = GAllowedRoom /\ a_unguarded_success (arm_of QNodes) = false /  source_room_filtered (a_source (arm_of QNodes)) = true.
+Lemma nodes_arm : a_guard (arm_of QNodes) = GAllowedRoom /\ a_unguarded_success (arm_of QNodes) = false /\ source_room_filtered (a_source (arm_of QNodes)) = true.
 Proof. apply room_arm_facts. reflexivity. Qed.
-Lemma edges_arm : a_guard (arm_of QEdges) = GAllowedRoom /\ a_unguarded_success (arm_of QEdges) = false /  source_room_filtered (a_source (arm_of QEdges)) = true.
+Lemma edges_arm : a_guard (arm_of QEdges) = GAllowedRoom /\ a_unguarded_success (arm_of QEdges) = false /\ source_room_filtered (a_source (arm_of QEdges)) = true.
 Proof. apply room_arm_facts. reflexivity. Qed.
 Lemma roomlist_arm : a_guard (arm_of QRoomList) = GKeyReady /\ a_unguarded_success (arm_of QRoomList) = false.
 Proof.
   pose proof (arm_ok_all QRoomList) as H. unfold arm_ok in H.
   change (a_first_arg_is_room (arm_of QRoomList)) with false in H. cbv iota in H.
-  repeat (apply andb_true_iff in H; destruct H as [H ?]).
-  apply is_guard_eq in H2. apply negb_true_iff in H1. auto.
+  apply andb_true_iff in H. destruct H as [H Hfilt]. apply andb_true_iff in H. destruct H as [H Harg].
+  apply andb_true_iff in H. destruct H as [H Hnu]. apply andb_true_iff in H. destruct H as [Hsrc Hg].
+  apply is_guard_eq in Hg. apply negb_true_iff in Hnu. auto.
 Qed.
 
 (* ------------------------------------------------------------------ room.rs decides what the history says *)
@@ -105,7 +109,7 @@ Proof.
 Qed.
 Lemma def_of_in : forall defs d, NoDup (map fst defs) -> In d defs -> def_of defs (fst d) = Some (snd d).
 Proof.
-  intros defs d Hnd Hin. unfold def_of. rewrite (find_unique fst defs d Hnd Hin). reflexivity.
+  intros defs d Hnd Hin. unfold def_of. rewrite (find_unique (@fst uid (list event)) defs d Hnd Hin). reflexivity.
 Qed.
 Lemma define_fst : forall defs r ev, map fst (define defs r ev) = map fst defs.
 Proof.
